@@ -6,9 +6,9 @@ READY = True
 META = {
     "technique": "Lean 4 proof (block-stack driver with LoadBlocks / parent switch / depth cursor / BlockState::Replace / recursion-limit accounting refines a stack-free specification for every environment of the fragment and every fuel; termination, cycle, double-extends, missing-template, include and import theorems) + differential correspondence of the model with the real engine on enumerated and sampled template environments",
     "category": "proof",
-    "text": "Kernel-checked theorems about MJ/Model/Blocks.lean (transcription of LoadBlocks, the end-of-instructions parent switch, call_block incl. self.name() and required blocks, perform_super emitted and captured, perform_include, import/from-import codegen, loops, macro calls, variable frames, the auto-escape mode (each template's initial mode as the default callback derives it from the name — extension table regenerated from defaults.rs; include/import switch to the included template's own mode and back, blocks / super() / macros / the parent layout reached through extends keep the current mode, {% autoescape %} blocks; write_escaped for Html with the regenerated escape table and for Json) and the recursion limit = outer_stack_depth + frames with INCLUDE_/MACRO_RECURSION_COST regenerated from the sources): blocks_refine_spec — for every environment whose templates are built from text, variables, set, macros, block tags, self.name(), super() (both also captured into variables), required blocks, conditional extends (executed or not, anything before/behind it), include (names, lists, ignore missing; included templates being inheritance chains of their own), import/from-import, loops and macro calls, with well-founded block nesting, and for every fuel, the stateful driver returns exactly the output or error chain of the specification (no block stacks, no cursor, no capture stack, no loaded set); corollaries block_renders_most_derived, super_goes_one_up, untouched_falls_through, child_text_discarded; rendering_terminates (the recursion limit, not the model's fuel, bounds every nest), extends_terminates / cycle_is_detected_error, include_cycle_errors (include cycles end in BadInclude…InvalidOperation), double_extends_error, missing_is_error_not_truncation, include_first_existing, import_exports_toplevel, import_of_extending_template. The model is tied to /repo by rendering every generated environment (all 1- and 2-template block assignments exhaustively, sampled chains of up to 4 templates with include/import/self-call snippets at top level, in loops, macros and blocks, static/dynamic/conditional extends, captured super, required blocks, inheritance and include cycles, double extends, missing templates) with the real engine in supervised child processes (hang / stack overflow = failure) and comparing output or the exact error-kind chain with the Lean model; template names carry mixed extensions (.html .txt .json .xml .js .htm .yaml, with .j2/.jinja suffixes) and the variable values contain the characters the modes treat differently; the Lean specification itself is evaluated on every case inside the fragment, an independent substitution-style spec in Python is the oracle, and a metamorphic oracle checks for every case that a wrapper template of another mode that only includes t0 renders exactly what t0 renders on its own.",
+    "text": "Kernel-checked theorems about MJ/Model/Blocks.lean (transcription of LoadBlocks, the end-of-instructions parent switch, call_block incl. self.name() and required blocks, perform_super emitted and captured, perform_include, import/from-import codegen, loops, macro calls, variable frames, the undefined behaviour (printing / attribute access / iteration of undefined values per mode, tables regenerated from utils.rs and vm/mod.rs), the auto-escape mode (each template's initial mode as the default callback derives it from the name — extension table regenerated from defaults.rs; include/import switch to the included template's own mode and back, blocks / super() / macros / the parent layout reached through extends keep the current mode, {% autoescape %} blocks; write_escaped for Html with the regenerated escape table and for Json) and the recursion limit = outer_stack_depth + frames with INCLUDE_/MACRO_RECURSION_COST regenerated from the sources): blocks_refine_spec — for every environment whose templates are built from text, variables, set, macros, block tags, self.name(), super() (both also captured into variables), required blocks, conditional extends (executed or not, anything before/behind it), include (names, lists, ignore missing; included templates being inheritance chains of their own), import/from-import, loops and macro calls, with well-founded block nesting, and for every fuel, the stateful driver returns exactly the output or error chain of the specification (no block stacks, no cursor, no capture stack, no loaded set); corollaries block_renders_most_derived, super_goes_one_up, untouched_falls_through, child_text_discarded; render_block_most_derived / render_block_on_fresh_state (the State::render_block entry points), rendering_terminates (the recursion limit, not the model's fuel, bounds every nest; the driver runs with exactly the proven fuel), extends_terminates / cycle_is_detected_error, include_cycle_errors (include cycles end in BadInclude…InvalidOperation), double_extends_error, missing_is_error_not_truncation, include_first_existing, import_exports_toplevel, import_of_extending_template. The model is tied to /repo by rendering every generated environment (all 1- and 2-template block assignments exhaustively, sampled chains of up to 4 templates with include/import/self-call snippets at top level, in loops, macros and blocks, static/dynamic/conditional extends, captured super, required blocks, inheritance and include cycles, double extends, missing templates) with the real engine in supervised child processes (hang / stack overflow = failure) and comparing output or the exact error-kind chain with the Lean model; template names carry mixed extensions (.html .txt .json .xml .js .htm .yaml, with .j2/.jinja suffixes) and the variable values contain the characters the modes treat differently; the Lean specification itself is evaluated on every case inside the fragment, an independent substitution-style spec in Python is the oracle, and a metamorphic oracle checks for every case that a wrapper template of another mode that only includes t0 renders exactly what t0 renders on its own.",
     "design_ref": "DESIGN.md §3 C06",
-    "level_note": "Trusted: Lean kernel; hand transcription of vm/mod.rs (LoadBlocks, end of instructions, call_block, perform_super, perform_include, ExportLocals, macro calls), vm/state.rs (BlockStack, with_execution_state), vm/context.rs (depth accounting) and the Import/FromImport/Extends/Block code generation into MJ/Model/Blocks.lean, validated differentially (not proved) on ~1.6e4 (quick) / ~1.4e5 (thorough) environments; the pretty-printer from abstract templates to Jinja source in harness/src/bin/c06.rs. Outside the proven fragment (validated by the correspondence only): super() at the top level of an included template, block references from a block to a lower-numbered block or from inside a macro, extends inside loops/macros/blocks, macro closures over enclosing locals. The specification threads variable frames exactly like the engine (it abstracts from the block machinery, not from variable scoping).",
+    "level_note": "Trusted: Lean kernel; hand transcription of vm/mod.rs (LoadBlocks, end of instructions, call_block, perform_super, perform_include, ExportLocals, macro calls), vm/state.rs (BlockStack, with_execution_state), vm/context.rs (depth accounting) and the Import/FromImport/Extends/Block code generation into MJ/Model/Blocks.lean, validated differentially (not proved) on ~1.6e4 (quick) / ~1.4e5 (thorough) environments; the pretty-printer from abstract templates to Jinja source in harness/src/bin/c06.rs. Outside the proven fragment (validated by the correspondence only): super() at the top level of an included template (the engine hands the includer's current block name into the include), an autoescape block directly inside another one, block references from a block to a lower-numbered block or from inside a macro, extends inside loops/macros/blocks, macro closures over enclosing locals. The specification threads variable frames exactly like the engine (it abstracts from the block machinery, not from variable scoping).",
 }
 
 LIMIT = 60  # nesting bound of the Python spec (only cycles reach it)
@@ -80,6 +80,8 @@ class Toks:
             return ("inmac", self.num(), self.num(), self.next(), self.items())
         if k == "ae":
             return ("ae", self.next(), self.items())
+        if k == "bad":
+            return ("bad", self.num())
         raise ValueError("bad item tag " + k)
 
 
@@ -146,8 +148,10 @@ class Spec:
     the first existing template as its own chain with the current variables, an import exposes
     exactly what the imported template assigned at its top level."""
 
-    def __init__(self, env):
+    def __init__(self, env, ub=0):
         self.env = env
+        self.ub = ub          # 0 lenient, 1 chainable, 2 semi-strict, 3 strict
+        self.main_defs = None
         self.root_ctx = {0: ("str", V0)}
         self.mode = "none"  # the current auto-escape mode
 
@@ -159,9 +163,26 @@ class Spec:
 
     def render(self):
         self.mode = self.env[0][2]
-        return "".join(self.template(0, [{}], False, 0))
+        self.root_scopes = [{}]
+        return "".join(self.template(0, self.root_scopes, False, 0))
+
+    def render_block_after_render(self, n):
+        """Template::render_captured + State::render_block: the block is resolved against the
+        whole chain the render followed, on the variables the render left at top level"""
+        self.render()
+        self.mode = self.env[0][2]
+        return "".join(self.block(self.main_defs, n, self.root_scopes, False, 0))
+
+    def render_block_fresh(self, n):
+        """Template::new_state().render_block: only the template's own blocks, no context"""
+        self.mode = self.env[0][2]
+        self.root_ctx = {}
+        defs = {k: [b] for k, b in self.env[0][1].items()}
+        return "".join(self.block(defs, n, [], False, 0))
 
     def undef(self, say):
+        if self.ub >= 2:
+            raise SpecErr("UndefinedError")
         return say("null") if self.mode == "json" else []
 
     def captured(self, txt):
@@ -202,6 +223,8 @@ class Spec:
                 quiet = silent or parent is not None
                 out += self.item(it, defs, None, scopes, quiet, parent is not None, depth)
             if parent is None:
+                if depth == 0 and idx == 0 and scopes is getattr(self, "root_scopes", None):
+                    self.main_defs = defs
                 return out
             t = parent
 
@@ -298,9 +321,13 @@ class Spec:
                 scopes.pop()
             scopes[-1][it[3]] = val
             return []
+        if k == "bad":
+            raise SpecErr("InvalidOperation")  # template name is not a string
         if k == "attr":
             v = self.lookup(scopes, it[1])
             if v is None or v == UNDEF:
+                if self.ub == 1:
+                    return self.undef(say)   # chainable: an attribute of undefined is undefined
                 raise SpecErr("UndefinedError")
             if v[0] != "module":
                 raise NotImplementedError
@@ -315,6 +342,8 @@ class Spec:
         if k == "keys":
             v = self.lookup(scopes, it[1])
             if v is None or v == UNDEF:
+                if self.ub >= 2:
+                    raise SpecErr("InvalidOperation")  # an undefined value is not iterable
                 return say(fmt(self.mode, ""))
             if v[0] != "module":
                 raise NotImplementedError
@@ -385,9 +414,20 @@ class Spec:
         raise NotImplementedError
 
 
-def spec_result(env):
+def cfg_of(case):
+    fam = case.split(" ", 1)[0]
+    c = fam.split("~")[1] if "~" in fam else "00000"
+    return {"loader": c[0] == "1", "syntax": c[1] == "1", "pathjoin": c[2] == "1", "ub": int(c[3]), "blk": int(c[4])}
+
+
+def spec_result(env, ub=0, stream="render", blk=0):
     try:
-        return "ok:" + Spec(env).render()
+        sp = Spec(env, ub)
+        if stream == "render":
+            return "ok:" + sp.render()
+        if stream == "rblock":
+            return "ok:" + sp.render_block_after_render(blk)
+        return "ok:" + sp.render_block_fresh(blk)
     except SpecErr as e:
         return "err:" + e.kind
     except RecursionError:
@@ -417,8 +457,10 @@ def discarded_markers(env):
 
 
 # ---------------------------------------------------------------------------- check
-def judge(r, case, impl, detail):
+def judge(r, case, impl, detail, stream="render"):
     fam, env = parse_case(case)
+    fam = fam.split("~")[0] + ("" if stream == "render" else ":" + stream)
+    cfg = cfg_of(case)
     sys.setrecursionlimit(10000)
     if impl in ("panic", "hang") or impl.startswith("crash"):
         r.oracle_failure(case, f"engine {impl} ({detail}) instead of rendering or reporting an error", impl.split(":")[0] + ":" + detail.split(" (")[0][:80])
@@ -426,7 +468,7 @@ def judge(r, case, impl, detail):
     if impl.startswith("syntax:") or impl.startswith("bad"):
         r.broken.append(f"harness generated an unparsable template: {case[:200]} -> {impl}")
         return
-    want = spec_result(env)
+    want = spec_result(env, cfg["ub"], stream, cfg["blk"])
     if want is None:
         r.hist["oracle"]["spec-undecided"] += 1
         return
@@ -446,7 +488,7 @@ def judge(r, case, impl, detail):
         if inner != want[4:]:
             r.oracle_failure(case, f"spec: error {want} but the engine's innermost error kind is {inner}", "error-kind:" + fam)
             return
-    if impl.startswith("ok:"):
+    if impl.startswith("ok:") and stream == "render":
         for m in discarded_markers(env):
             if m in impl:
                 r.oracle_failure(case, f"text outside blocks of an extending template was rendered: {m}", "child-text-rendered:" + fam)
@@ -462,14 +504,14 @@ def run(r):
     r.rule = ("templates named t<i>.<ext> with mixed extensions; every assignment of {absent, override, super-before, super-after} to 3 blocks (one nestable) for chains of 1 and 2 "
               "templates (exhaustive), seeded random chains of 1..4 templates with static/dynamic/conditional extends, the same "
               "with 1-2 include/import/self-call snippets (30 kinds) at top level / in blocks / loops / macros, plus enumerated auto-escape mode crossings (includer x included x placement x include/import/from-import, child x parent for extends/super), inheritance "
-              "cycles, include cycles, double extends and missing templates; a case is non-trivial when it executes an extends, "
+              "cycles, include cycles, double extends, missing templates and non-string template names; every case carries an environment configuration (add_template vs loader-backed, default vs custom delimiters, plain names vs directories + path-join callback with relative references, undefined behaviour lenient/chainable/semi-strict/strict) and is rendered through three entry points (Template::render, render_captured + State::render_block, new_state + render_block); a case is non-trivial when it executes an extends, "
               "include or import")
     r.assumptions = [
-        "the model's nesting fuel (4000) is never exhausted (rendering_terminates: (LIMIT-1)*(|env|+2)+|env|+1 would be needed only by adversarial nests; the generated cases stay far below)",
-        "template/block/variable names are the harness' canonical t<i>/b<n>/v<n>; name syntax and path joining are not part of this property",
+        "template/block/variable names are the harness' canonical t<i>.<ext> (optionally in directories d<k>/ with relative references resolved by the documentation's path-join callback) / b<n> / v<n>",
+        "the model runs with the fuel `renderFuel env` for which rendering_terminates proves that fuel is never what stops a render inside the fragment; outside the fragment the driver marks an exhausted fuel explicitly (FUEL-EXHAUSTED = broken), it did not occur",
     ]
     r.regen_tables(["MAX_RECURSION_ENV", "INCLUDE_RECURSION_COST", "MACRO_RECURSION_COST",
-                    "C06_AUTO_ESCAPE_EXTENSIONS", "HTML_ESCAPE_TABLE"])
+                    "C06_AUTO_ESCAPE_EXTENSIONS", "C06_UNDEFINED_TABLES", "HTML_ESCAPE_TABLE"])
     r.lean_prove("MJ.Props.C06", "MJ/Audit/C06.lean", extra_targets=["drive_c06"])
     exe = r.cargo_build("c06")
     if exe is None:
@@ -486,10 +528,10 @@ def run(r):
     r.exhaustive = False
     for i, line in enumerate(lines):
         f = line.split("\t")
-        if len(f) != 4:
+        if len(f) != 6:
             r.broken.append(f"malformed harness line {i}")
             continue
-        case, impl, detail, meta = f
+        case, impl, detail, meta, rblock, fresh = f
         r.hist["metamorphic include == alone"][meta.split(":")[0]] += 1
         if meta.startswith("diff:"):
             r.oracle_failure(case, "a wrapper template that only includes t0 does not render what t0 renders on its own "
@@ -500,18 +542,25 @@ def run(r):
             r.hist["result"]["skipped"] += 1
             continue
         r.count(case, nontrivial(case))
-        r.hist["family"][fam] += 1
+        r.hist["family"][fam.split("~")[0]] += 1
         r.hist["result"]["ok" if impl.startswith("ok:") else impl.split(">")[0][:40]] += 1
         r.hist["detail"][detail[:40]] += 1
         if model is not None:
-            c2, m, lean_spec = model[i].split("\t")
+            c2, m, lean_spec, m_rblock, m_fresh = model[i].split("\t")
+            if "FUEL-EXHAUSTED" in model[i]:
+                r.broken.append(f"the model ran out of fuel on {case[:200]} (rendering_terminates says it cannot inside the fragment)")
+            for nm, a, b in (("render_captured+render_block", rblock, m_rblock), ("new_state+render_block", fresh, m_fresh)):
+                if a != "skip":
+                    r.hist["stream"][nm] += 1
+                    if a != b:
+                        r.model_disagreement(case + " [" + nm + "]", a, b)
             if lean_spec != "n/a":
                 # the case lies in the fragment of `blocks_refine_spec`: the Lean spec itself must
                 # agree with the engine and with the Python reading of the statement
                 r.hist["oracle"]["inside proven fragment (Lean spec evaluated)"] += 1
                 if lean_spec != impl:
                     r.oracle_failure(case, f"Lean specRender gives {lean_spec[:300]} but the engine {impl[:300]}", "lean-spec:" + fam)
-                py = spec_result(parse_case(case)[1])
+                py = spec_result(parse_case(case)[1], cfg_of(case)["ub"])
                 if py is not None and (py.startswith("ok:") or lean_spec.startswith("ok:")) and py != lean_spec:
                     r.broken.append(f"Lean spec and Python spec disagree on {case[:200]}: {lean_spec[:200]} vs {py[:200]}")
             if m.startswith("bad-case") or "UNSUPPORTED" in m:
@@ -519,6 +568,13 @@ def run(r):
             elif impl != m:
                 r.model_disagreement(case, impl, m)
         judge(r, case, impl, detail)
+        if rblock != "skip":
+            judge(r, case, rblock, "render_block", "rblock")
+            judge(r, case, fresh, "render_block", "fresh")
+        cfgv = cfg_of(case)
+        for key in ("loader", "syntax", "pathjoin"):
+            r.hist["config"][key + "=" + str(int(cfgv[key]))] += 1
+        r.hist["config"]["undefined=" + ["lenient", "chainable", "semi-strict", "strict"][cfgv["ub"]]] += 1
         if i % 1300 == 7:
             r.sample({"case": case[:400], "engine": impl[:300]})
     r.extra["cases"] = len(lines)
@@ -541,6 +597,6 @@ def replay(r, path):
         model = r.driver("drive_c06", case + "\n")
         print("model:", model[0].split("\t")[1] if model else None)
         print("lean spec:", model[0].split("\t")[2] if model else None)
-        print("spec :", spec_result(parse_case(case)[1]))
+        print("spec :", spec_result(parse_case(case)[1], cfg_of(case)["ub"]))
         print("engine:", last.split("\t")[1] if "\t" in last else last)
     return 0
